@@ -23,7 +23,7 @@ fi
 YIELD=""
 RACE=""
 case "$ID" in
-  C20) YIELD="datamodel,node/basicnode,node/bindnode,node/gendemo,schema,traversal,traversal/selector,linking,linking/cid,multicodec,codec,codec/dagcbor,codec/dagjson,codec/cbor,codec/json,codec/raw,storage/memstore,printer,node/mixins" ;;
+  C20) YIELD="datamodel,node/basicnode,node/bindnode,node/gendemo,schema,traversal,traversal/selector,linking,linking/cid,multicodec,codec,codec/dagcbor,codec/dagjson,codec/cbor,codec/json,codec/raw,storage/memstore,storage/fsstore,storage,printer,node/mixins" ;;
 esac
 DETMAPS=""
 RGO="$GO"
